@@ -13,6 +13,7 @@ pub use serde_json;
 pub use verif_rt as rt;
 
 pub mod reply;
+pub mod remote;
 pub use reply::{reply_main_with, ReplyVt};
 
 // ------------------------------------------------------------------------------------------------
@@ -179,13 +180,20 @@ pub fn proj_resp<C: std::fmt::Debug>(r: &Response<C>) -> Value {
 }
 
 /// What a call produced, in a shape TLC's Json module represents faithfully.
-pub fn outcome_resp<C: std::fmt::Debug>(r: Result<Response<C>, Value>) -> Value {
+pub fn outcome_resp<C: std::fmt::Debug>(r: Result<Response<C>, Value>) -> (Value, Option<Vec<u8>>) {
+    (outcome_resp_v(r), None)
+}
+fn outcome_resp_v<C: std::fmt::Debug>(r: Result<Response<C>, Value>) -> Value {
     match r {
         Ok(resp) => json!({"verdict":"ok","resp":proj_resp(&resp),"binary":{"t":"-"},"err":{"class":"","code":0,"text":""}}),
         Err(e) => json!({"verdict":"err","resp":{"attrs":[],"data":"","has_data":false,"msgs":0,"events":0},"binary":{"t":"-"},"err":e}),
     }
 }
-pub fn outcome_bin(r: Result<Binary, Value>) -> Value {
+pub fn outcome_bin(r: Result<Binary, Value>) -> (Value, Option<Vec<u8>>) {
+    let bytes = r.as_ref().ok().map(|b| b.to_vec());
+    (outcome_bin_v(r), bytes)
+}
+fn outcome_bin_v(r: Result<Binary, Value>) -> Value {
     match r {
         Ok(b) => json!({"verdict":"ok","resp":{"attrs":[],"data":"","has_data":false,"msgs":0,"events":0},"binary":rt::tag_text(b.as_slice()),"err":{"class":"","code":0,"text":""}}),
         Err(e) => json!({"verdict":"err","resp":{"attrs":[],"data":"","has_data":false,"msgs":0,"events":0},"binary":{"t":"-"},"err":e}),
@@ -198,8 +206,8 @@ pub fn outcome_bin(r: Result<Binary, Value>) -> Value {
 pub enum CallOut {
     /// the entry point's message type rejected the document (nothing was called)
     DecodeErr(String),
-    /// the entry point / contract impl was called
-    Done(Value),
+    /// the entry point / contract impl was called (second: the raw bytes a query returned)
+    Done(Value, Option<Vec<u8>>),
     /// this program has no such entry point
     Absent,
 }
@@ -222,12 +230,15 @@ pub struct ProgVt {
     pub call_mt: fn(&str, &mut Deps, Env, MessageInfo, &[u8]) -> CallOut,
     pub encode_events: fn(),
     pub parts: &'static [&'static str],
+    /// remote helpers (executor / querier / instantiate builder / admin): emits RemoteMsg events and
+    /// delivers what the helpers built; the argument is the first free sequence number
+    pub remote_events: Option<fn(usize)>,
 }
 
 const HEIGHTS: [u64; 3] = [12345, 7, 999_999];
 const SENDERS: [&str; 3] = ["alice", "bob", "carol"];
 
-fn funds_pool(i: usize) -> Vec<Coin> {
+pub fn funds_pool(i: usize) -> Vec<Coin> {
     match i % 3 {
         0 => vec![],
         1 => vec![coin(5, "atom")],
@@ -277,41 +288,66 @@ pub fn run_program(vt: &ProgVt, prog: &Value) {
     let candidates: Vec<String> = prog["candidates"].as_array().map(|a| a.iter().filter_map(|v| v.as_str().map(String::from)).collect()).unwrap_or_default();
     let stims = prog["stim"].as_array().cloned().unwrap_or_default();
     for (seq, s) in stims.iter().enumerate() {
-        let kind = s["ep"].as_str().unwrap_or("");
-        let doc = s["doc"].as_str().unwrap_or("").as_bytes().to_vec();
-        for via in ["ep", "mt"] {
-            let (mut deps, env, info, envj) = make_ctx(seq);
-            rt::emit(json!({"ev":"Deliver","prog":id,"seq":seq,"via":via,"ep":kind,"shape":s["shape"],"key":s["key"],
-                "body":s["body"],"part":s["part"],"method":s["method"],"val":s["val"],"doc":rt::tag_text(&doc),"env":envj}));
-            if via == "ep" {
-                decode_events(vt, id, kind, &doc, &candidates);
+        flight(vt, seq, s, &candidates, &["ep", "mt"]);
+    }
+    if let Some(f) = vt.remote_events {
+        if let Err(m) = rt::catch(move || f(stims.len())) {
+            rt::emit(json!({"ev":"Panic","prog":id,"where":"remote","msg":m}));
+        }
+    }
+}
+
+/// One delivery of a document (stimulus `s`) through the given paths; returns the bytes a query returned on the
+/// entry-point path (used by the remote-query forwarding).
+pub fn flight(vt: &ProgVt, seq: usize, s: &Value, candidates: &[String], vias: &[&str]) -> Option<Result<Vec<u8>, String>> {
+    let id = vt.id;
+    let kind = s["ep"].as_str().unwrap_or("");
+    let doc = s["doc"].as_str().unwrap_or("").as_bytes().to_vec();
+    let mut ret = None;
+    for via in vias {
+        let via = *via;
+        let (mut deps, env, info, envj) = make_ctx(seq);
+        rt::emit(json!({"ev":"Deliver","prog":id,"seq":seq,"via":via,"ep":kind,"shape":s["shape"],"key":s["key"],
+            "body":s["body"],"part":s["part"],"method":s["method"],"val":s["val"],"doc":rt::tag_text(&doc),"env":envj,
+            "remote": s.get("remote").cloned().unwrap_or(json!(""))}));
+        if via == "ep" {
+            decode_events(vt, id, kind, &doc, candidates);
+        }
+        let f = if via == "ep" { vt.call_ep } else { vt.call_mt };
+        let d2 = doc.clone();
+        let out = std::panic::catch_unwind(std::panic::AssertUnwindSafe(|| f(kind, &mut deps, env, info, &d2)));
+        match out {
+            Ok(CallOut::Done(v, bytes)) => {
+                let mut v = v;
+                v["ev"] = json!("Return");
+                v["prog"] = json!(id);
+                v["called"] = json!(true);
+                v["mark"] = json!(mark(&deps));
+                if via == "ep" {
+                    ret = Some(match bytes {
+                        Some(b) => Ok(b),
+                        None => Err(v["err"]["text"].as_str().unwrap_or("").to_string()),
+                    });
+                }
+                rt::emit(v);
             }
-            let f = if via == "ep" { vt.call_ep } else { vt.call_mt };
-            let d2 = doc.clone();
-            let out = std::panic::catch_unwind(std::panic::AssertUnwindSafe(|| f(kind, &mut deps, env, info, &d2)));
-            match out {
-                Ok(CallOut::Done(v)) => {
-                    let mut v = v;
-                    v["ev"] = json!("Return");
-                    v["prog"] = json!(id);
-                    v["called"] = json!(true);
-                    v["mark"] = json!(mark(&deps));
-                    rt::emit(v);
+            Ok(CallOut::DecodeErr(e)) => {
+                if via == "ep" {
+                    ret = Some(Err(e.clone()));
                 }
-                Ok(CallOut::DecodeErr(e)) => {
-                    rt::emit(json!({"ev":"Return","prog":id,"called":false,"verdict":"err","mark":mark(&deps),
-                        "resp":{"attrs":[],"data":"","has_data":false,"msgs":0,"events":0},"binary":{"t":"-"},
-                        "err":{"class":"decode","code":0,"text":e}}));
-                }
-                Ok(CallOut::Absent) => {
-                    rt::emit(json!({"ev":"Absent","prog":id,"ep":kind}));
-                }
-                Err(_) => {
-                    rt::emit(json!({"ev":"Panic","prog":id,"where":"call","msg":"panic in entry point"}));
-                }
+                rt::emit(json!({"ev":"Return","prog":id,"called":false,"verdict":"err","mark":mark(&deps),
+                    "resp":{"attrs":[],"data":"","has_data":false,"msgs":0,"events":0},"binary":{"t":"-"},
+                    "err":{"class":"decode","code":0,"text":e}}));
+            }
+            Ok(CallOut::Absent) => {
+                rt::emit(json!({"ev":"Absent","prog":id,"ep":kind}));
+            }
+            Err(_) => {
+                rt::emit(json!({"ev":"Panic","prog":id,"where":"call","msg":"panic in entry point"}));
             }
         }
     }
+    ret
 }
 
 fn decode_events(vt: &ProgVt, id: &str, kind: &str, doc: &[u8], candidates: &[String]) {
